@@ -170,6 +170,26 @@ type Mixed struct {
 	T  time.Time         `json:"t"`
 }
 
+// Narrow: every integer and float width the codec builders accept, side by
+// side and in slices. A codec that stores more bytes than its target has
+// spills into the neighbouring field, or past the end of the slice's backing
+// array (defect D14: int16 targets were given the 32-bit codec).
+type Narrow struct {
+	A int16     `json:"a"`
+	B int16     `json:"b"`
+	C int32     `json:"c"`
+	D int16     `json:"d"`
+	E float32   `json:"e"`
+	F int32     `json:"f"`
+	G bool      `json:"g"`
+	H int16     `json:"h"`
+	L []int16   `json:"l"`
+	M []int32   `json:"m"`
+	N []float32 `json:"n"`
+	P *int16    `json:"p"`
+	Z int16     `json:"z"`
+}
+
 // Fixed can only be read (the library's encoder has no Go-array support); it
 // is used with files produced by the reference writer.
 type Fixed struct {
@@ -243,6 +263,7 @@ func init() {
 	addType(desc[NullPtrs]("NullPtrs", false, false))
 	addType(desc[MapPtrs]("MapPtrs", false, true))
 	addType(desc[Mixed]("Mixed", false, true))
+	addType(desc[Narrow]("Narrow", false, false))
 	addType(desc[Fixed]("Fixed", true, false))
 }
 
